@@ -797,7 +797,14 @@ func (self *PathNode) handleChild(in *[]PathNode, lp *int, cp *int, p *thrift.Bi
 	var l = *lp
 	guardPathNodeSlice(&con, l)
 	if l >= len(con) {
+		// NOTICE: con may be a reused slice. The slots skipped here (holes of the
+		// id-indexed or hash-indexed storage) must not keep nodes of a previous load.
+		old := len(con)
 		con = con[:l+1]
+		for i := old; i < l; i++ {
+			con[i].Path = Path{}
+			con[i].Node = Node{}
+		}
 	}
 	v := &con[l]
 	l += 1
@@ -826,6 +833,13 @@ func (self *PathNode) handleChild(in *[]PathNode, lp *int, cp *int, p *thrift.Bi
 		}
 		p.Buf = buf
 		p.Read = ss + p.Read
+		if opts.NotScanParentNode && len(v.Next) == 0 {
+			// an empty container has no children to be marshaled from, thus it must keep its raw data
+			v.Node = self.slice(ss, p.Read, et)
+		}
+	} else {
+		// NOTICE: a reused slot may still hold the children of a previous load
+		v.Next = v.Next[:0]
 	}
 
 	*in = con
@@ -1192,6 +1206,12 @@ func (self *PathNode) scanChildren(p *thrift.BinaryProtocol, recurse bool, opts 
 				// NOTE: we use original count*2 as the capacity of the hash table.
 				N = size * 2
 				guardPathNodeSlice(&con, N-1)
+				// NOTICE: con may be a reused slice, thus the whole table must be emptied first
+				con = con[:N]
+				for i := range con {
+					con[i].Path = Path{}
+					con[i].Node = Node{}
+				}
 				conAddr = *(*unsafe.Pointer)(unsafe.Pointer(&con))
 				c = N
 			}
@@ -1216,6 +1236,12 @@ func (self *PathNode) scanChildren(p *thrift.BinaryProtocol, recurse bool, opts 
 				// NOTE: we use original count*2 as the capacity of the hash table.
 				N = size * 2
 				guardPathNodeSlice(&con, N-1)
+				// NOTICE: con may be a reused slice, thus the whole table must be emptied first
+				con = con[:N]
+				for i := range con {
+					con[i].Path = Path{}
+					con[i].Node = Node{}
+				}
 				conAddr = *(*unsafe.Pointer)(unsafe.Pointer(&con))
 				c = N
 			}
